@@ -269,6 +269,9 @@ pub fn tok_to_f64(t: &Value, cfg: &Cfg) -> f64 {
             let n = gu(t, "n");
             if cfg.mode_tick() {
                 ((n as u128 * cfg.unit() as u128) as f64) / 90000.0
+            } else if gs(&cfg.json, "mode") == "d32" {
+                // dyadic times (n/32 s, exactly representable): n * 2812.5 ticks, i.e. exact ties for odd n
+                n as f64 / 32.0
             } else {
                 n as f64 / 270000.0
             }
@@ -413,6 +416,8 @@ fn stats_json(s: &MuxerStats, cfg: &Cfg) -> Value {
     // duration in the instance's time unit (thirds of a tick, or U ticks), rounded to nearest
     let d = if cfg.mode_tick() {
         (s.duration_secs * 90000.0 / cfg.unit() as f64).round()
+    } else if gs(&cfg.json, "mode") == "d32" {
+        (s.duration_secs * 32.0).round()
     } else {
         (s.duration_secs * 270000.0).round()
     };
